@@ -219,8 +219,11 @@ class C25(Prop):
                 cases.append({"f": "out", "conn": conn, "seed": rng.randrange(10**9),
                               "len": rng.choice([0, 1, 5, 100, 4095, 4096, 65536, 65537, 200000] +
                                                 ([1 << 20] if tier != "quick" else [])),
-                              "kind": rng.choice(["text", "text", "ws", "uni"]), "nl": rng.random() < 0.5,
+                              "kind": rng.choice(["text", "text", "ws", "uni", "bytes"]), "nl": rng.random() < 0.5,
                               "rc": rng.choice([0, 1, 42, 255])})
+        for _ in range({"quick": 16, "thorough": 48, "extended": 24}[tier]):
+            cases.append({"f": "path", "job": rng.random() < 0.35, "stdin": rng.random() < 0.35, "cap": rng.random() < 0.6,
+                          "out": rng.choice(["", "x", "three\n", "  pad  ", "l1\nl2", "no-nl"]), "rc": rng.choice([0, 0, 1, 7, 255])})
         nseq = {"quick": 6, "thorough": 18, "extended": 9}[tier]
         for j in range(nseq):
             steps = []
@@ -229,6 +232,16 @@ class C25(Prop):
                               "rc": rng.choice([0, 0, 1, 2, 255])})
             if j % 3 == 0:
                 steps.insert(rng.randrange(0, len(steps)), {"k": "to"})
+            elif j % 3 == 1:
+                # state-changing commands given to run() as they are (no sh -c of the caller), each followed by probes:
+                # a fresh process would not see any of it
+                for _ in range(rng.randrange(1, 4)):
+                    st = rng.choice([{"k": "cd", "d": rng.choice(["/", "/tmp", "/var"])},
+                                     {"k": "export", "key": "SFV_X", "val": rng.choice(["1", "a b"])},
+                                     {"k": "exit", "n": rng.choice([0, 3, 42])},
+                                     {"k": "stdin"}])
+                    at = rng.randrange(0, len(steps) + 1)
+                    steps[at:at] = [st, {"k": "pwd"}, {"k": "echo", "key": "SFV_X"}]
             cases.append({"f": "seq", "steps": steps})
         return cases
 
@@ -347,6 +360,8 @@ class C25(Prop):
             return self.asyncio.run(self._out(c))
         if f == "seq":
             return self.asyncio.run(self._seq(c))
+        if f == "path":
+            return self.asyncio.run(self._path(c))
         raise ValueError(f)
 
     async def _frame(self, c):
@@ -432,6 +447,9 @@ class C25(Prop):
             body = "".join(rng.choice(" \n\t\r x") for _ in range(n))
         else:
             body = "".join(rng.choice("aé日 €\n 😀b") for _ in range(n))
+        if c["kind"] == "bytes":         # arbitrary bytes, not valid UTF-8
+            return bytes(rng.choice([0x61, 0x20, 0x0a, 0xff, 0xfe, 0xc3, 0x80, 0xe2, 0x28, 0xf0]) for _ in range(min(n, 5000))) \
+                + (b"\n" if c["nl"] else b"")
         b = body.encode()[:n] if c["kind"] != "uni" else body.encode()
         b = b.decode("utf-8", "ignore").encode()
         if c["nl"]:
@@ -452,7 +470,7 @@ class C25(Prop):
         res = {}
         try:
             out, rc = await conn.run(loc, ["sh", "-c", shlex.quote(script)], capture_output=True, timeout=300)
-            exp = data.decode("utf-8").strip()
+            exp = data.decode("utf-8", "replace").strip()
             res = {"rc": rc, "len": len(out), "same": out == exp, "sha": hashlib.sha1(out.encode()).hexdigest()[:12],
                    "exp_len": len(exp)}
             if out != exp:
@@ -464,6 +482,48 @@ class C25(Prop):
         finally:
             await conn.undeploy(False)
         res["count"] = self._count(counter)
+        return res
+
+    async def _path(self, c):
+        """One BaseConnector.run with a given (job_name, stdin, capture_output): which path produced the result
+        (persistent shell / fresh process), what was returned, how many times the command started."""
+        import shlex
+        d = self._dir()
+        counter, pf = os.path.join(d, "count"), os.path.join(d, "payload")
+        with open(pf, "w") as fh:
+            fh.write(c["out"])
+        script = f"echo x >> {counter}; cat {pf}; exit {c['rc']}"
+        k, subs = [0], [0]
+
+        def name():
+            k[0] += 1
+            return f"m{k[0] - 1}"
+
+        old_name, old_sub = self.sfshell.random_name, self.utils.run_in_subprocess
+
+        async def sub(*a, **kw):
+            subs[0] += 1
+            return await old_sub(*a, **kw)
+
+        self.sfshell.random_name, self.utils.run_in_subprocess = name, sub
+        conn, loc = self._connector("base", d)
+        res = {}
+        try:
+            r = await conn.run(loc, ["sh", "-c", shlex.quote(script)], capture_output=c["cap"], timeout=300,
+                               stdin=self.asyncio.subprocess.DEVNULL if c["stdin"] else None,
+                               job_name="job" if c["job"] else None)
+            res["ret"] = None if r is None else [hexs(r[0].encode()), r[1]]
+        except Exception as e:  # noqa
+            res["exc"] = type(e).__name__
+        finally:
+            self.sfshell.random_name, self.utils.run_in_subprocess = old_name, old_sub
+            try:
+                await conn.run(loc, ["true"], capture_output=True, timeout=300)
+            except Exception:  # noqa
+                pass
+            await self._settle(d)
+            await conn.undeploy(False)
+        res.update({"via": "sub" if subs[0] else "shell", "markers": k[0], "count": self._count(counter)})
         return res
 
     async def _settle(self, d):
@@ -498,23 +558,41 @@ class C25(Prop):
 
         old = self.sfshell.random_name
         self.sfshell.random_name = name
+        os.chdir(d)
         conn, loc = self._connector("base", d)
         obs = []
+        save0 = os.dup(0)                  # children must never read this worker's stdin (the case stream)
+        nul = os.open(os.devnull, os.O_RDONLY)
+        os.dup2(nul, 0)
         try:
             for i, st in enumerate(c["steps"]):
                 counter = os.path.join(d, f"count{i}")
                 m0 = k[0]
+                timeout, rel = 300, None
                 if st["k"] == "ok":
                     pf = os.path.join(d, f"p{i}")
                     with open(pf, "w") as fh:
                         fh.write(st["out"])
-                    script, timeout = f"echo x >> {counter}; cat {pf}; exit {st['rc']}", 300
-                else:
+                    cmd = ["sh", "-c", shlex.quote(f"echo x >> {counter}; cat {pf}; exit {st['rc']}")]
+                elif st["k"] == "to":
                     rel = os.path.join(d, f"rel{i}")
-                    script = f"echo x >> {counter}; while [ ! -e {rel} ]; do sleep 0.2; done; printf late"
+                    cmd = ["sh", "-c", shlex.quote(f"echo x >> {counter}; while [ ! -e {rel} ]; do sleep 0.2; done; printf late")]
                     timeout = 1
+                elif st["k"] == "cd":
+                    cmd = ["cd", st["d"]]
+                elif st["k"] == "pwd":
+                    cmd = ["pwd"]
+                elif st["k"] == "export":
+                    cmd = ["export", shlex.quote(f"{st['key']}={st['val']}")]
+                elif st["k"] == "echo":
+                    cmd = ["echo", f'"[${st["key"]}]"']
+                elif st["k"] == "exit":
+                    cmd = ["exit", str(st["n"])]
+                else:  # a command that reads its standard input
+                    cmd = ["sh", "-c", shlex.quote('read x; echo "got=[$x]"')]
+                    timeout = 5
                 try:
-                    out, rc = await conn.run(loc, ["sh", "-c", shlex.quote(script)], capture_output=True, timeout=timeout)
+                    out, rc = await conn.run(loc, cmd, capture_output=True, timeout=timeout)
                     o = {"r": [hexs(out.encode()), rc]}
                 except Exception as e:  # noqa
                     o = {"exc": type(e).__name__}
@@ -533,11 +611,14 @@ class C25(Prop):
             for i, o in enumerate(obs):
                 o["count"] = self._count(os.path.join(d, f"count{i}"))
         finally:
+            os.dup2(save0, 0)
+            os.close(save0)
+            os.close(nul)
             self.sfshell.random_name = old
             for i in range(len(c["steps"])):        # never leave a blocked command behind
                 open(os.path.join(d, f"rel{i}"), "w").close()
             await conn.undeploy(False)
-        return {"steps": obs}
+        return {"steps": obs, "cwd": os.path.realpath(d)}
 
     # ------------------------------------------------------------------ oracle (from the property text)
     @staticmethod
@@ -591,21 +672,76 @@ class C25(Prop):
                 return ("exactly-once", f"started {o.get('count')} times")
             if "exc" in o or not o.get("same") or o.get("rc") != c["rc"]:
                 return ("output-status", f"output/status differ: {str(o)[:300]}")
+        if f == "path":
+            if o.get("count") != 1:
+                return ("exactly-once", f"run(job={c['job']}, stdin={c['stdin']}, capture={c['cap']}) started the command "
+                                        f"{o.get('count')} times: {o}")
+            want = [hexs(c["out"].strip().encode()), c["rc"]] if c["cap"] else None
+            if "exc" in o or o.get("ret") != want:
+                return ("output-status", f"run(job={c['job']}, stdin={c['stdin']}, capture={c['cap']}) returned {o}, expected {want}")
         if f == "seq":
-            if len(o.get("steps", [])) != len(c["steps"]):
-                return ("crash", "sequence not completed")
-            for i, (st, so) in enumerate(zip(c["steps"], o["steps"])):
-                if st["k"] == "ok":
-                    want = [hexs(st["out"].strip().encode()), st["rc"]]
-                    if so.get("r") != want:
-                        after = any(s["k"] == "to" for s in c["steps"][:i])
-                        return ("sequence-output" + ("-after-timeout" if after else ""),
-                                f"step {i} returned {so} instead of {want}")
-            for i, (st, so) in enumerate(zip(c["steps"], o["steps"])):
-                if so.get("count") != 1:
-                    return ("exactly-once" + ("-after-timeout" if st["k"] == "to" else ""),
-                            f"step {i} ({st['k']}) was started {so.get('count')} times")
+            fails = self._seq_failures(c, o)
+            if fails:
+                known = self._known()
+                pick = next((x for x in fails if f"seq/{x[0]}/{x[1]}" not in known), fails[0])
+                return (pick[0], pick[2] + f" [all failing steps: {[(x[0], x[1]) for x in fails]}]")
         return None
+
+    def _known(self):
+        if not hasattr(self, "_known_sigs"):
+            from harness.lib.framework import load_known
+            self._known_sigs = {k[0] for k in load_known(self.ID)[0]}
+        return self._known_sigs
+
+    @staticmethod
+    def _seq_expect(c, o, st):
+        """what a fresh process returns for this step (the property's reference), or None for a timed-out step"""
+        k = st["k"]
+        if k == "ok":
+            return [hexs(st["out"].strip().encode()), st["rc"]]
+        if k in ("cd", "export"):
+            return ["", 0]
+        if k == "pwd":
+            return [hexs(o.get("cwd", "").encode()), 0]
+        if k == "echo":
+            return [hexs(b"[]"), 0]
+        if k == "exit":
+            return ["", st["n"]]
+        if k == "stdin":
+            return [hexs(b"got=[]"), 0]
+        return None
+
+    def _seq_failures(self, c, o):
+        """every step is judged: [(clause, detail, message)]"""
+        if len(o.get("steps", [])) != len(c["steps"]):
+            return [("crash", "incomplete", "sequence not completed")]
+        out = []
+        for i, (st, so) in enumerate(zip(c["steps"], o["steps"])):
+            before = [s["k"] for s in c["steps"][:i]]
+            want = self._seq_expect(c, o, st)
+            if want is not None and so.get("r") != want:
+                got = bytes.fromhex(so["r"][0]).decode("utf-8", "replace") if "r" in so else so.get("exc")
+                exp = bytes.fromhex(want[0]).decode("utf-8", "replace")
+                if "to" in before and isinstance(got, str) and "SF_CMD_END_" in got and got.endswith(exp):
+                    detail = "late-output-and-old-marker-prefixed"
+                elif "stdin" in before and isinstance(got, str) and "SF_CMD_END_" in got:
+                    detail = "marker-line-eaten-by-stdin-reader"
+                elif st["k"] == "pwd" and "cd" in before:
+                    detail = "cwd-leaked"
+                elif st["k"] == "echo" and "export" in before:
+                    detail = "env-leaked"
+                elif st["k"] == "exit":
+                    detail = "exit-kills-shell" if "exc" in so else "exit-status"
+                elif st["k"] == "stdin":
+                    detail = "stdin-shared-with-shell"
+                else:
+                    detail = "after-" + (before[-1] if before else "start")
+                out.append(("sequence-output", detail,
+                            f"step {i} ({st['k']}) returned {got!r} (rc {so.get('r', [0, None])[1]}), a fresh process returns {exp!r} (rc {want[1]})"))
+            if st["k"] in ("ok", "to") and so.get("count") != 1:
+                out.append(("exactly-once", f"{st['k']}-count={so.get('count')}",
+                            f"step {i} ({st['k']}) was started {so.get('count')} times"))
+        return out
 
     # ------------------------------------------------------------------ model side
     def coq_case(self, c, o):
@@ -645,6 +781,18 @@ class C25(Prop):
             else:
                 r = o
             return f"CFrame {coq_str(c['marker'])} {coq_list(evs)} {result_coq(r)} {coq_nat(o['unread'])}"
+        if f == "path":
+            def oc(x):
+                return "(inl None)" if x is None else f"(inl (Some ({coq_str(bytes.fromhex(x[0]))}, {coq_N(x[1])})))"
+            if "exc" in o:
+                return None
+            q = f"{{| r_job := {'true' if c['job'] else 'false'}; r_stdin := {'true' if c['stdin'] else 'false'}; " \
+                f"r_capture := {'true' if c['cap'] else 'false'} |}}"
+            m = "SF_CMD_END_m0"
+            resp = f"[Chunk {coq_str(c['out'] + m + ':' + str(c['rc']) + chr(10))}]"
+            fresh = oc(o["ret"]) if o["via"] == "sub" else "(inr EHang)"
+            return (f"CRunAny {q} {coq_str(m)} {resp} {fresh} {oc(o['ret'])} {coq_nat(o['count'])} "
+                    f"{'ViaSubprocess' if o['via'] == 'sub' else 'ViaShell'}")
         if f == "seq":
             cs, rs, k = [], [], 0
             for st, so in zip(c["steps"], o["steps"]):
@@ -689,6 +837,12 @@ class C25(Prop):
             return f"run/{c['conn']}/{clause}/{what}"
         if f == "out":
             return f"out/{c['conn']}/{clause}/{c['kind']}"
+        if f == "seq":
+            x = next((x for x in self._seq_failures(c, o) if x[0] == clause and f"seq/{x[0]}/{x[1]}" not in self._known()), None) \
+                or next((x for x in self._seq_failures(c, o) if x[0] == clause), None)
+            return f"seq/{clause}/{x[1] if x else 'none'}"
+        if f == "path":
+            return f"path/{clause}/job={int(c['job'])},stdin={int(c['stdin'])},cap={int(c['cap'])}"
         return f"{f}/{clause}"
 
     def shrink(self, c):
